@@ -437,6 +437,10 @@ def bounded(ctx, b):
     custom("two_notes_with_a_null_between", [(15, [note, "8080", note] + C.text_words("a" * 31))], ["\u266a\u266a" + "a" * 31])
     custom("two_notes_with_a_null_between_that_fit", [(15, [note, "8080", note] + C.text_words("a" * 30))], [])
     custom("two_notes_with_a_null_between_doubled", [(15, [note, note, "8080", note, note] + C.text_words("a" * 31))], ["\u266a\u266a" + "a" * 31])
+    # an extended character replaces the character before it whatever kind that one is - here a special character (a
+    # music note sent as the stand-in): 30 + 1 + 1 = 32 columns, and 33 with one letter more
+    custom("extended_replaces_a_special_stand_in_that_fits", [(15, x30 + [note, C.extended("}")] + C.text_words("z"))], [])
+    custom("extended_replaces_a_special_stand_in_long", [(15, x31 + [note, C.extended("}")] + C.text_words("z"))], ["x" * 31 + "}z"])
     # italic text that ends in a blank, a mid-row code that closes the italics, more text: ONE row of 15 + 1 + 17 = 33 columns
     # (the blank before the closing code is in the middle of the row), and of 32 with one letter less
     custom("blank_before_a_closing_mid_row_code", [(15, [C.midrow(True)] + C.text_words("A" * 15 + " ") + [C.midrow(False)] + C.text_words("B" * 17))],
